@@ -143,18 +143,14 @@ def stepActor (isConn : Bool) (id : Nat) : M Unit := do
       runKItem id it
   else
     let e ← getEntry id
-    match e.locks with
-    | some (cap, (_, it) :: rest) =>
-      let cap' := cap - 1
-      setEntry id { e with locks := if cap' == 0 && rest.isEmpty then none else some (cap', rest) }
+    match mbNext e with
+    | .lock it e' =>
+      setEntry id e'
       runLItem id it
-    | some (_, []) => pure ()
-    | none =>
-      match e.queue with
-      | [] => pure ()
-      | (_, it) :: rest =>
-        setEntry id { e with queue := rest }
-        runCItem id it
+    | .normal it e' =>
+      setEntry id e'
+      runCItem id it
+    | .idle => pure ()
 
 partial def drain (fuel : Nat) : M Unit := do
   if fuel == 0 then
@@ -331,7 +327,24 @@ def runStimulus (g : Gw) (line : String) (snap : Bool) : Gw × String :=
   if line.startsWith "#" then (g, "")
   else
     let ((), g1) := (do stimulus line; settle 50 : M Unit).run { g with out := #[] }
-    let obs := sortStrs g1.out.toList
+    -- frames grouped by client in emission order (stable), everything else sorted
+    let frames := g1.out.toList.filter (·.startsWith "F ")
+    let rest := g1.out.toList.filter (fun o => !o.startsWith "F ")
+    let clientOf := fun (o : String) => ((o.splitOn " ").getD 1 "")
+    let clients := sortStrs (frames.map clientOf).eraseDups
+    let isBarrier := fun (f : String) =>
+      ((f.splitOn " ").getD 2 "") != "ev" || (f.splitOn "R{M:").length > 1 || (f.splitOn "R{C:").length > 1 ||
+        (f.splitOn "R{E:").length > 1
+    let ridOf := fun (f : String) => ((f.splitOn " ").getD 3 "")
+    -- runs of event frames without resource set: stable order by resource id
+    let canonClient := fun (fs : List String) =>
+      let rec go (acc : List String) (run : List String) : List String → List String
+        | [] => acc ++ (run.toArray.insertionSort (fun a b => ridOf a < ridOf b)).toList
+        | f :: rest =>
+          if isBarrier f then go (acc ++ (run.toArray.insertionSort (fun a b => ridOf a < ridOf b)).toList ++ [f]) [] rest
+          else go acc (run ++ [f]) rest
+      go [] [] fs
+    let obs := clients.flatMap (fun c => canonClient (frames.filter (fun o => clientOf o == c))) ++ sortStrs rest
     let obs := match g1.panic with
       | some p => obs ++ [s!"PANIC {p}"]
       | none => obs
